@@ -21,7 +21,7 @@ TEMPLATE-MATCHED (every statement must be the expected one; holes H_x are what i
   info.demuxed_spectral_information, info.muxed_spectral_information, info.carriers_to_spectral_information,
   info.create_input_spectral_information, request.filter_si, request.find_elements_common_range (n.params.bands of Edfa and
   Multiband_amplifier; SI default f_min, f_max, spacing), utils.find_common_range (all of it), utils.filter_valid_amp_bands,
-  utils.remove_duplicates, elements.Edfa.__call__, elements.Multiband_amplifier.__call__ (amp.params.bands[0] per amplifier,
+  utils.remove_duplicates, request.propagate (literal, template of harness/pygen_c13.py), elements.Edfa.__call__, elements.Multiband_amplifier.__call__ (amp.params.bands[0] per amplifier,
   re-merge with muxed_spectral_information), and in network.set_egress_amplifier the two statements that make
   Multiband_amplifier.params.bands the bands of the amplifiers selected by the design.
 The skeleton around the translated holes (list plumbing, loops) is emitted as fixed Gallina text only when the template
@@ -578,6 +578,12 @@ def generate(repo=None):
     out.append('Definition g_multi_call (subs : list amp) (s : si) : res si :=\n'
                '  let* out_si := g_multi_parts subs s in\n'
                '  if is_nil out_si then Err "ValueError:multiband" else g_mux out_si.\n')
+    # ---- request.propagate: literal (template shared with the C13 tie): spectrum from the request, filter_si once before the
+    # element loop, the receiver (and the source transceiver) updated with the per-channel si.tx_osnr
+    from .pygen_c13 import PROPAGATE_TEMPLATE
+    match_template(PROPAGATE_TEMPLATE, strip_doc(find(trees[REQUEST], 'propagate').body), 'request.propagate')
+    out.append(f'(* {REQUEST}: propagate (template, literal: build, filter_si once, element loop, update_snr(si.tx_osnr) on the '
+               'source transceiver and roadm_osnr + [si.tx_osnr] on the receiver) *)')
     check_set_egress(find(trees[NETWORK], 'set_egress_amplifier'))
     out.append(f'(* {NETWORK}: set_egress_amplifier: node.params.bands = [a.params.bands[0] for a in node.amplifiers.values()] '
                '(statements present, checked) *)')
